@@ -205,6 +205,9 @@ func verifyHeader(
 // in a batch of parents (ascending order) to avoid looking those up from the
 // database. This is useful for concurrently verifying a batch of new headers.
 func verifyCascadingFields(header Header) error {
+	if VerifSkipSeal {
+		return nil
+	}
 	cachedir, err := ioutil.TempDir("", "")
 	if err != nil {
 		fmt.Println(err)
